@@ -29,7 +29,11 @@ def one_case(rng):
     use_gnu = rng.random() < 0.5
     if use_gnu:
         symoffset = rng.randrange(1, len(names) + 1)
-        table, order = build_gnu(names, symoffset, rng.choice([1, 2, 3]), rng.choice([1, 2]), rng.choice([5, 6]), cls, le)
+        nb = rng.choice([1, 2, 3, 5])
+        perm = list(range(nb))
+        if rng.random() < 0.5:
+            rng.shuffle(perm)
+        table, order = build_gnu(names, symoffset, nb, rng.choice([1, 2]), rng.choice([5, 6]), cls, le, perm)
     else:
         order = list(names)
         table = build_sysv(order, rng.choice([1, 3]), le)
